@@ -72,6 +72,35 @@ def extract(repo):
     happy = strip_comments(read(repo, "src/happy.rs"))
     m = need(re.search(r"const\s+RACE_DELAY\s*:\s*Duration\s*=\s*Duration::from_millis\(\s*([^)]+)\)\s*;", happy), "RACE_DELAY")
     c["raceDelayMs"] = eval_int(m.group(1))
+    # --- decision tables and defaults -------------------------------------------------------------
+    reqmod = strip_comments(read(repo, "src/request/mod.rs"))
+    send = fn_body(reqmod, "send")
+    m = need(re.search(r"let\s+is_redirect\s*=\s*matches!\(\s*resp\.status\(\)\s*,(.*?)\)\s*;", send, flags=re.S), "is_redirect matches!")
+    names = re.findall(r"StatusCode::([A-Z_]+)", m.group(1))
+    table = {"MOVED_PERMANENTLY": 301, "FOUND": 302, "SEE_OTHER": 303, "NOT_MODIFIED": 304, "USE_PROXY": 305,
+             "TEMPORARY_REDIRECT": 307, "PERMANENT_REDIRECT": 308, "MULTIPLE_CHOICES": 300}
+    if not names or any(n not in table for n in names):
+        raise Missing("redirect status names %r" % names)
+    c["redirectStatuses"] = [table[n] for n in names]
+
+    settings = strip_comments(read(repo, "src/request/settings.rs"))
+    dflt = fn_body(settings, "default")
+    def field(name, pat):
+        mm = need(re.search(r"\b%s\s*:\s*%s" % (name, pat), dflt), "default " + name)
+        return mm.group(1)
+    c["defaultMaxHeaders"] = eval_int(field("max_headers", r"([0-9_]+)\s*,"))
+    c["defaultMaxRedirections"] = eval_int(field("max_redirections", r"([0-9_]+)\s*,"))
+    c["defaultFollowRedirects"] = field("follow_redirects", r"(true|false)") == "true"
+    c["defaultConnectTimeoutMs"] = 1000 * eval_int(field("connect_timeout", r"Duration::from_secs\(\s*([0-9_]+)\s*\)"))
+    c["defaultReadTimeoutMs"] = 1000 * eval_int(field("read_timeout", r"Duration::from_secs\(\s*([0-9_]+)\s*\)"))
+    c["defaultTimeoutNone"] = field("timeout", r"(None|Some)") == "None"
+    c["defaultAcceptInvalidCerts"] = field("accept_invalid_certs", r"(true|false)") == "true"
+    c["defaultAcceptInvalidHostnames"] = field("accept_invalid_hostnames", r"(true|false)") == "true"
+    c["defaultAllowCompression"] = field("allow_compression", r"(true|false)") == "true"
+
+    mp = strip_comments(read(repo, "src/multipart_crate/mod.rs"))
+    m = need(re.search(r"const\s+BOUNDARY_LEN\s*:\s*usize\s*=\s*([^;]+);", mp), "BOUNDARY_LEN")
+    c["boundaryLen"] = eval_int(m.group(1))
     return c
 
 LEAN_NAMES = ["maxLineLen", "chunkSizeLineLimit", "maxBufferLen", "connectBodyCap", "raceDelayMs"]
@@ -81,6 +110,12 @@ def render(c):
              "namespace Atto.Consts"]
     for k in LEAN_NAMES:
         lines.append("def %s : Nat := %d" % (k, c[k]))
+    lines.append("/-- the statuses in the `matches!` of `send` -/")
+    lines.append("def redirectStatuses : List Nat := [%s]" % ", ".join(str(x) for x in c["redirectStatuses"]))
+    for k in ["defaultMaxHeaders", "defaultMaxRedirections", "defaultConnectTimeoutMs", "defaultReadTimeoutMs", "boundaryLen"]:
+        lines.append("def %s : Nat := %d" % (k, c[k]))
+    for k in ["defaultFollowRedirects", "defaultTimeoutNone", "defaultAcceptInvalidCerts", "defaultAcceptInvalidHostnames", "defaultAllowCompression"]:
+        lines.append("def %s : Bool := %s" % (k, "true" if c[k] else "false"))
     lines.append("end Atto.Consts")
     return "\n".join(lines) + "\n"
 
